@@ -397,8 +397,24 @@ func TestC11_RedirectTargets(t *testing.T) {
 		// not vouch for the next request)
 		if rapid.IntRange(0, 3).Draw(rt, "validRequestFirst") == 0 {
 			wq := url.Values{"client_id": {"c11"}, "response_type": {"code"}, "state": {"state-0123456789"}, "nonce": {"nonce-0123456789"}, "scope": {"a"}, "redirect_uri": {regStr[rapid.IntRange(0, nreg-1).Draw(rt, "warmWith")]}}
+			// ... possibly while the operator's transport rule was a different one (configuration is read per request:
+			// a rule in force for an earlier request says nothing about this one)
+			ruleThen := rapid.SampledFrom([]string{"same", "same", "permissive", "strict", "default"}).Draw(rt, "ruleDuringEarlierRequest")
+			now := w.Cfg.RedirectSecureChecker
+			switch ruleThen {
+			case "permissive":
+				w.Cfg.RedirectSecureChecker = func(context.Context, *url.URL) bool { return true }
+			case "strict":
+				w.Cfg.RedirectSecureChecker = fosite.IsRedirectURISecureStrict
+			case "default":
+				w.Cfg.RedirectSecureChecker = nil
+			}
 			w.Authorize(wq, h.Consent{})
+			w.Cfg.RedirectSecureChecker = now
 			h.Label("valid-request-first")
+			if ruleThen != "same" && ruleThen != checker {
+				h.Label("transport-rule-changed-since-earlier-request")
+			}
 		}
 		var res *h.AuthzResult
 		if inject == "consent-denied" {
